@@ -96,3 +96,47 @@ func ZZSwap(fi, failMask int) {
 	}
 	vReach("end")
 }
+
+// ZZSwapStale (C19): a swap request that does not fit the shard's CURRENT ensemble reaches the real swapNode — the
+// load balancer computes a whole round of swaps from one snapshot of the cluster status, so the request for a shard
+// can have been overtaken by an earlier swap of the same shard (kind 0: the target is already a member; kind 1: the
+// node to vacate is no longer a member; kind 2: both). The request must be refused and must leave the ensemble, the
+// removed-nodes list and the term alone: whatever arrives, the stored ensemble keeps RF distinct servers.
+func ZZSwapStale(kind int) {
+	var trace []zzEvent
+	rpc := &zzCoordRpc{trace: &trace, heads: map[string]*proto.EntryId{}, fails: map[string]bool{}}
+	st := &zzStatus{trace: &trace}
+	s := zzShardController(3, 0, 4, rpc, st)
+	s.shardMetadata.Leader = &model.Server{Public: "s0", Internal: "s0"}
+	for i := 0; i < 5; i++ {
+		rpc.heads[zzServer(i).Internal] = &proto.EntryId{Term: 3, Offset: 2}
+	}
+	var from, to model.Server
+	switch kind {
+	case 0:
+		from, to = zzServer(1), zzServer(2) // s2 is already a member
+	case 1:
+		from, to = zzServer(4), zzServer(3) // s4 is not a member
+	default:
+		from, to = zzServer(4), zzServer(0)
+	}
+	res := make(chan error, 1)
+	s.swapNode(from, to, res)
+	err := <-res
+	vAssert("request-that-does-not-fit-the-ensemble-is-refused", err != nil)
+	check := func(md model.ShardMetadata) {
+		vAssert("ensemble-keeps-rf-servers", len(md.Ensemble) == 3)
+		for i := range md.Ensemble {
+			for j := 0; j < i; j++ {
+				vAssert("ensemble-servers-distinct", md.Ensemble[i].Internal != md.Ensemble[j].Internal)
+			}
+		}
+	}
+	check(s.shardMetadata)
+	for _, md := range st.stored {
+		check(md)
+	}
+	vAssert("nothing-marked-as-removed", len(s.shardMetadata.RemovedNodes) == 0)
+	vAssert("no-election-for-a-refused-request", s.shardMetadata.Term == 4 && len(trace) == 0)
+	vReach("end")
+}
